@@ -372,10 +372,10 @@ def check_one(ctx, ids, b, obs, model, tag=None, shrinker=None):
 # --- w5-c09wire (begin) -----------------------------------------------------------------------
 def link_coverage(ctx, ids, obs, model):
     """How many decoded messages fall inside the classes on which the link coder -> wiring pass is PROVED
-    (`quietList`: Props/C09.lean uncompressed, Props/C09Wire.lean compressed) or stated and evaluated per case
-    (`wireLinksOK`, Lemmas/WireSimLinks.lean: 206 and the bitmap machine without 204).  Inside `wireLinksOK` the
-    statement itself (pass succeeds, side conditions hold) is evaluated on the model; a failure would refute the
-    conjectured theorem and is printed (it is not a defect of pybufrkit)."""
+    (`quietList`: Props/C09.lean uncompressed, Props/C09Wire.lean compressed; `wireLinksOK`, Props/C09Wire.lean: 206 and
+    the bitmap machine without 204, compressed or not; union = `C09.viewClass`, `C09_decode_hierarchical_view`).
+    Inside the classes the statement itself (pass succeeds, side conditions hold) is also evaluated on the model; a
+    failure would contradict a theorem (model / proof drift, not a defect of pybufrkit) and is printed."""
     comp = bool(obs.get('compressed'))
     sfx = ':compressed' if comp else ':uncompressed'
     q, wl = model.get('quiet', 0), bool(model.get('wire_links_ok'))
@@ -389,12 +389,14 @@ def link_coverage(ctx, ids, obs, model):
             print('NOTE: C09 link theorem contradicted by the model on a quietList template (ids %s)' % (ids or [])[:40])
             ctx.count('link:quietList-statement-FAILS')
     if wl:
-        ctx.count('link:inside-wireLinksOK' + sfx)
+        ctx.count('link:inside-wireLinksOK(proved)' + sfx)
         if not q:
             ctx.count('link:inside-wireLinksOK-not-quietList' + sfx)
         if not (wire_ok and side_ok):
-            print('NOTE: C09 conjecture wireLinksOK => wired refuted on the model (ids %s)' % (ids or [])[:40])
+            print('NOTE: C09 link theorem contradicted by the model on a wireLinksOK template (ids %s)' % (ids or [])[:40])
             ctx.count('link:wireLinksOK-statement-FAILS')
+    if q or wl:
+        ctx.count('link:inside-viewClass(proved)' + sfx)
     if not q and not wl:
         ctx.count('link:outside-both' + sfx)
         if not (wire_ok and side_ok):
